@@ -46,7 +46,7 @@ def _pos_forms(p, last):
     if p == "n":
         return [["NUM"], ["10K"], ["1k"], ["2m"], ["3G"], ["0"], ["007"]]
     if p == "s":
-        return ([["STR"], ["ML"], ["text:\n..x\n."], ["text: #c\nabc\n."], ["text:\n\n."], ["text:\n."], ['"a\\"b\\\\"'], ['""']]
+        return ([["STR"], ["ML"], ["text:\n..x\n."], ["text: #c\nabc\n."], ["text:\n\n."], ["text:\n."], ["TEXT:\nabc\n."], ["Text:\t#c\nabc\n."], ['"a\\"b\\\\"'], ['""']]
                 if last else [["STR"]])
     return [["STR"], ["LIST1"], ["LIST2"]]
 
@@ -166,13 +166,14 @@ def chains(depth):
 # ---------------------------------------------------------------------------------------------
 # single-token edits
 
-SUBST = [";", "{", "}", "(", ")", ",", "[", "]", "STR", "NUM", ":is", ":foreign", "true", "keep", "foo", "not", "if", "else"]
+SUBST = [";", "{", "}", "(", ")", ",", "[", "]", "STR", "NUM", ":is", ":foreign", "true", "keep", "foo", "not", "if", "else",
+         "ML", "text:\r\nab\r\n..c\r\n."]  # multi-line tokens as the offending token (LF and CRLF inside)
 
 
 def flatten(word):
     out = []
     for s in word:
-        if " " in s and not s.startswith(('"', "RAW:", "text:")):
+        if " " in s and not s.startswith(('"', "RAW:")) and s[:5].lower() != "text:":
             out.extend(s.split())
         elif s == "LIST1":
             out.extend(["[", "STR", "]"])
